@@ -404,6 +404,27 @@ class Evaluator:
                         ok, v = self.repo.try_fold(c.class_consts[name], c.mod)
                         if ok:
                             return self.const_to_value(v)
+                # an instance attribute of a plain class: typed by `self.name: T = ..` or `self.name = <annotated parameter>`
+                # in __init__ when that is its only assignment in the class
+                for c in cls.mro():
+                    init = c.methods.get("__init__")
+                    if init is None:
+                        continue
+                    writes = [n for m_ in c.methods.values() for n in ast.walk(m_.node) if isinstance(n, (ast.Assign, ast.AnnAssign, ast.AugAssign)) and any(isinstance(tg, ast.Attribute) and tg.attr == name and isinstance(tg.value, ast.Name) and tg.value.id == "self" for tg in (n.targets if isinstance(n, ast.Assign) else [n.target]))]
+                    if len(writes) != 1 or not any(writes[0] is n for n in ast.walk(init.node)):
+                        continue
+                    w = writes[0]
+                    ann: t.Optional[ast.expr] = None
+                    if isinstance(w, ast.AnnAssign):
+                        ann = w.annotation
+                    elif isinstance(w, ast.Assign) and isinstance(w.value, ast.Name):
+                        for a in init.node.args.posonlyargs + init.node.args.args + init.node.args.kwonlyargs:
+                            if a.arg == w.value.id:
+                                ann = a.annotation
+                    if ann is not None:
+                        typ2 = parse_type(self.repo, ann, c.mod)
+                        if typ2 and typ2[0] in ("cls", "opt"):
+                            return typed_value(f"{base.path}.{name}", typ2)
                 m = cls.find_method(name)
                 if m is not None:
                     if m.is_property:
